@@ -154,6 +154,7 @@ type runawayPanic struct{}
 // Host is the harness state attached to one LState.
 type Host struct {
 	L     *lua.LState
+	Main  *lua.LState // the main state when L is a thread created from it (OnThread)
 	Ctx   *SimContext
 	Trace []string
 	// EmitStep[i] is the global step index at which Trace[i] was appended.
@@ -193,6 +194,9 @@ type Options struct {
 	Kind        int
 	At          int64
 	TrackLimits bool
+	// OnThread runs the program on a thread created with NewThread from the
+	// (context-less) main state; the context, if any, is attached to that thread.
+	OnThread bool
 }
 
 func defaultLuaOptions() lua.Options {
@@ -229,7 +233,7 @@ func NewHost(o Options) *Host {
 	L := lua.NewState(lo)
 	openLibs(L)
 	h := &Host{L: L, ids: map[lua.LValue]int{}, MaxSteps: o.MaxSteps, Kind: o.Kind, At: o.At, TrackLimits: o.TrackLimits}
-	if o.WithContext {
+	if o.WithContext && !o.OnThread {
 		h.Ctx = NewSimContext()
 		L.SetContext(h.Ctx)
 	}
@@ -241,6 +245,15 @@ func NewHost(o Options) *Host {
 	L.SetGlobal("luadepth", L.NewFunction(h.luadepth))
 	L.SetGlobal("hostcall", L.NewFunction(h.hostcall))
 	L.SetGlobal("hostpcall", L.NewFunction(h.hostpcall))
+	if o.OnThread {
+		th, _ := L.NewThread()
+		if o.WithContext {
+			h.Ctx = NewSimContext()
+			th.SetContext(h.Ctx)
+		}
+		h.Main = L
+		h.L = th
+	}
 	return h
 }
 
